@@ -277,6 +277,21 @@ type PaginatedResourceRepository[ResourceType, OptionsType any] struct {
 	*ResourceRepository[ResourceType, OptionsType]
 }
 
+// validateCursorQuery checks what a decoded cursor must carry: a known, paginated column and an order.
+func (r *PaginatedResourceRepository[ResourceType, OptionsType]) validateCursorQuery(q InitialPaginatedQuery[OptionsType]) error {
+	if q.Order == nil {
+		return NewErrInvalidQuery("invalid cursor: missing order")
+	}
+	_, field := r.resourceHandler.Schema().GetFieldByNameOrAlias(q.Column)
+	if field == nil {
+		return NewErrInvalidQuery("invalid property '%s' for pagination", q.Column)
+	}
+	if !field.IsPaginated {
+		return newErrNotPaginatedField(q.Column)
+	}
+	return nil
+}
+
 func (r *PaginatedResourceRepository[ResourceType, OptionsType]) Paginate(
 	ctx context.Context,
 	paginationQuery PaginatedQuery[OptionsType],
@@ -284,7 +299,14 @@ func (r *PaginatedResourceRepository[ResourceType, OptionsType]) Paginate(
 
 	switch v := any(paginationQuery).(type) {
 	case OffsetPaginatedQuery[OptionsType]:
+		// the query comes from a client supplied cursor: its column ends up in the ORDER BY clause
+		if err := r.validateCursorQuery(v.InitialPaginatedQuery); err != nil {
+			return nil, err
+		}
 	case ColumnPaginatedQuery[OptionsType]:
+		if err := r.validateCursorQuery(v.InitialPaginatedQuery); err != nil {
+			return nil, err
+		}
 	case InitialPaginatedQuery[OptionsType]:
 
 		if v.Column == "" {
@@ -299,7 +321,7 @@ func (r *PaginatedResourceRepository[ResourceType, OptionsType]) Paginate(
 
 		_, field := r.resourceHandler.Schema().GetFieldByNameOrAlias(v.Column)
 		if field == nil {
-			return nil, fmt.Errorf("invalid property '%s' for pagination", v.Column)
+			return nil, NewErrInvalidQuery("invalid property '%s' for pagination", v.Column)
 		}
 
 		if !field.IsPaginated {
@@ -336,7 +358,7 @@ func (r *PaginatedResourceRepository[ResourceType, OptionsType]) Paginate(
 	case ColumnPaginatedQuery[OptionsType]:
 		fieldName, field := r.resourceHandler.Schema().GetFieldByNameOrAlias(v.Column)
 		if field == nil {
-			return nil, fmt.Errorf("invalid property '%s' for pagination", v.Column)
+			return nil, NewErrInvalidQuery("invalid property '%s' for pagination", v.Column)
 		}
 		paginator = newColumnPaginator[ResourceType, OptionsType](v, fieldName, field.Type)
 		resourceQuery = v.Options
